@@ -134,9 +134,6 @@ template <class T> static std::string poke(long a, long code) {
     if (T* p = any_cast<T>(pool[a])) *p = V<T>::mk(code);
     return "ok";
 }
-static std::string exc_name(const std::exception& e) {
-    return std::string("r=?exc:") + e.what();
-}
 template <class T> static std::string cast_val(long a, char form) {
     try {
         switch (form) {
@@ -147,8 +144,8 @@ template <class T> static std::string cast_val(long a, char form) {
             default: throw vh::BadArgs("form");
         }
     } catch (const bad_any_cast& e) {
-        const std::bad_cast& base = e; (void)base;
-        return std::string(e.what()) == "bad any_cast" ? "r=x" : exc_name(e);
+        const std::bad_cast& base = e; (void)base;      // bad_any_cast is a std::bad_cast; its what() text is not promised
+        return "r=x";
     }
 }
 template <class T> static std::string cast_ptr(any* operand, bool cst) {
